@@ -541,12 +541,17 @@ func (st *tunnelServerStream) readMsgLocked() (data []byte, ok bool, err error) 
 
 		in, ok := st.receiver.dequeue()
 		if !ok {
-			var err error
 			verifYield("sread.deqfail", st.streamID)
-			if halfClosedErr := st.halfClosed.Load(); halfClosedErr != nil {
-				err = halfClosedErr.error
+			// If the receiver was cancelled because the context ended, report
+			// that (queued messages were discarded, so this is not a normal
+			// end and certainly not a message).
+			if err := st.ctx.Err(); err != nil {
+				return nil, true, err
 			}
-			return nil, true, err
+			if halfClosedErr := st.halfClosed.Load(); halfClosedErr != nil {
+				return nil, true, halfClosedErr.error
+			}
+			return nil, true, context.Canceled
 		}
 
 		switch in := in.(type) {
